@@ -163,6 +163,39 @@ Theorem C05_kill_counters_partition : forall w rt tg u w',
 Proof. exact kill_counters_partition. Qed.
 Print Assumptions C05_kill_counters_partition.
 
+(* ---- delayed actions (policies with a timeout: AddDelayActionForJob and its timers).  A timer
+   that expires executes its action against the cache and the phase as they are at THAT moment
+   ([fire]); everything stated for a processed request holds for it as well, in particular a job
+   in a final phase stays there (also part of C05_final_phases_absorbing: OFire is one of the ops) ---- *)
+Theorem C05_phase_transition_allowed_fire : forall w w' e wr,
+  fire w = (w', e, wr) -> In (st_phase (v_st w')) (allowed (st_phase (v_st w))).
+Proof. exact phase_transition_allowed_fire. Qed.
+Print Assumptions C05_phase_transition_allowed_fire.
+
+Theorem C05_aborted_left_only_by_resume_fire : forall w w' e wr,
+  fire w = (w', e, wr) ->
+  st_phase (v_st w) = PhAborted -> st_phase (v_st w') <> PhAborted ->
+  st_phase (v_st w') = PhRestarting /\
+  exists t c rest, d_queue (c_delay (v_ctl w)) = (t, c) :: rest /\ dt_action t = AResume.
+Proof. exact aborted_left_only_by_resume_fire. Qed.
+Print Assumptions C05_aborted_left_only_by_resume_fire.
+
+Theorem C05_retry_increments_once_fire : forall w w' e wr,
+  fire w = (w', e, wr) ->
+  let s := v_st w in let s' := v_st w' in
+  (st_retry s' = st_retry s \/
+   (st_retry s' = st_retry s + 1 /\ st_phase s' = PhRestarting /\ st_phase s <> PhRestarting)) /\
+  (st_phase s <> PhRestarting -> st_phase s' = PhRestarting -> st_retry s' = st_retry s + 1).
+Proof. exact retry_increments_once_fire. Qed.
+Print Assumptions C05_retry_increments_once_fire.
+
+Theorem C05_maxretry_fails_fire : forall w w' e wr,
+  fire w = (w', e, wr) ->
+  st_phase (v_st w) = PhRestarting -> s_maxretry (v_spec w) <= st_retry (v_st w) ->
+  st_phase (v_st w') = PhRestarting \/ st_phase (v_st w') = PhFailed.
+Proof. exact maxretry_fails_fire. Qed.
+Print Assumptions C05_maxretry_fails_fire.
+
 (* non-vacuity *)
 Example C05_fixed_on_f2_witness :
   exists w', step_req f2_world sync_req [] = (w', false, true) /\
@@ -198,3 +231,16 @@ Example C05_nonvacuous_counters_partition_sync :
   exists w', sync_job w URunningSync [] = (w', false, true) /\
              st_cnt (w_st w') = mkC 0 0 1 0 0 /\ st_term (w_st w') = 3 /\ length (w_pods w') = 4%nat.
 Proof. exact counters_partition_sync_nonvacuous. Qed.
+
+Example C05_nonvacuous_delayed_action :
+  let w := init_world delayed_spec (mkStatus PhRunning 0 0 1 (mkC 1 0 0 0 0) 0 [(1%positive, mkC 1 0 0 0 0)] false false)
+                      [mkPod 1 0 PPending false false] (Some PgRunning) in
+  let pending := mkReq EPodPending None (Some 1%positive) (Some (1%positive, 0)) 0 0 2 in
+  let w1 := run w [OReq pending []] in
+  length (d_queue (c_delay (v_ctl w1))) = 1%nat /\ st_phase (v_st w1) = PhRunning /\
+  let w2 := run w1 [OPodPhase 1 0 PSucceeded; OSyncPods; OReq sync_req []] in
+  st_phase (v_st w2) = PhCompleted /\
+  let w3 := run w2 [OFire] in
+  st_phase (v_st w3) = PhCompleted /\ st_retry (v_st w3) = 0 /\ d_queue (c_delay (v_ctl w3)) = [] /\
+  st_phase (v_st (run w1 [OFire])) = PhRestarting /\ st_retry (v_st (run w1 [OFire])) = 1.
+Proof. exact delayed_action_example. Qed.
